@@ -22,7 +22,7 @@ def load_findings():
     out = []
     p = os.path.join(ROOT, "known_findings.jsonl")
     if os.path.exists(p):
-        for ln in open(p):
+        for ln in open(p).read().splitlines():
             ln = ln.strip()
             if ln and not ln.startswith("#"):
                 out.append(json.loads(ln))
